@@ -122,11 +122,29 @@ def step1 (st : St) (op impl : String) : St × StepOut :=
       (if c.unregRuns ≤ 1 && c.notifyRuns ≤ 1 then [] else ["cleanup-twice"]) ++
       (if kv iw "st" == some "6" then [] else ["not-stopped-at-end"])
     ({ st with c := c }, { model := model, oracle := orc, nontrivial := c.raced })
+  | "xstress" :: _ =>
+    -- free-running tasks: `w=<kind:result:st:name:pid:pg:mon:kids:link:post,…> sup=<events> st=<final>`
+    let ws := ((kv iw "w").getD "").splitOn ","
+    let sup := ((kv iw "sup").getD "").splitOn ","
+    let terminal := sup.filter (fun e => e.startsWith "Terminated" || e == "Failed")
+    let graceful := sup.contains "Terminated:-" || sup.contains "Terminated:Drained"
+    let bad (w : String) : List String :=
+      match w.splitOn ":" with
+      | [kind, res, st, name, pid, pg, mon, kids, link, post] =>
+        (if res == "ok" && !(st == "6" && name == "0" && pid == "0" && pg == "0" && mon == "0" && kids == "0"
+            && link == "0" && (!graceful || post == "1")) then ["premature-return"] else []) ++
+        (if res == "timeout" && kind != "wait_timeout" then ["spurious-timeout"] else [])
+      | [_, "hung", _] => ["lost-wakeup"]
+      | _ => ["unparsable"]
+    let orc := (ws.map bad).foldl (· ++ ·) [] ++
+      (if terminal.length == 1 then [] else ["terminal-event-count"]) ++
+      (if kv iw "st" == some "6" then [] else ["not-stopped-at-end"])
+    (st, { model := impl, oracle := orc.eraseDups, nontrivial := true })
   | _ => (st, { model := "bad-op" })
 
 def step (st : St) (op impl : String) : St × StepOut :=
   let (st', out) := step1 st op impl
-  if st.diverged && !(op.startsWith "case ") then (st', { out with model := impl })
+  if st.diverged && !(op.startsWith "case ") && !(op.startsWith "xstress ") then (st', { out with model := impl })
   else if out.model != impl then ({ st' with diverged := true }, out)
   else (st', out)
 
